@@ -470,7 +470,7 @@ class SqliteConnection(sqlite3.Connection):
 
         curs = self.cursor()
 
-        index_name = '_'.join(columns) + '_index'
+        index_name = '_'.join([tablename] + list(columns)) + '_index'
         column_list = ','.join(columns)
 
         query = ("create index if not exists "
